@@ -590,3 +590,107 @@ fn g2_encode_roundtrip() {
     std::mem::forget(d2);
 }
 }
+
+// ------------------------------------------------------------------ cheap G2 harnesses for the per-change (quick) tier
+// The full 192-byte / 96-byte G2 harnesses above take 20-40 minutes of SAT solving and run in the thorough tier.  The quick
+// tier keeps the flag logic (first byte symbolic, one more symbolic byte anywhere, coordinates otherwise zero) and the sort-flag
+// rule of the encoder (y.c0 fully symbolic, y.c1 one symbolic limb -- includes y.c1 = 0 where the tie-break on c0 decides).
+common_stubs! { 194,
+fn g2_uncompressed_flags() {
+    // first byte fully symbolic (flags + top bits of x.c1), last byte symbolic, everything else zero
+    let b0: u8 = kani::any();
+    let bl: u8 = kani::any();
+    let mut bytes = [0u8; 192];
+    bytes[0] = b0;
+    bytes[191] = bl;
+    let enc = load_g2u(&bytes);
+    let sc = if b0 & 0x80 != 0 {
+        Cat::Compression
+    } else if b0 & 0x40 != 0 {
+        if b0 & 0x3f == 0 && bl == 0 { Cat::OkInf } else { Cat::Information }
+    } else if b0 & 0x20 != 0 {
+        Cat::Information
+    } else if b0 & 0x1f > 0x1a {
+        Cat::Coordinate          // x.c1 = (b0 & 0x1f) * 2^376 >= q  (q = 0x1a01...)
+    } else {
+        Cat::OkPoint
+    };
+    let got = enc.into_affine_unchecked();
+    let inf = match &got { Ok(p) => p.is_zero(), _ => false };
+    assert!(cat(&got, inf) == sc);
+    kani::cover!(sc == Cat::OkPoint && b0 & 0x1f != 0, "finite point with high x bits");
+    std::mem::forget(got);
+}
+}
+
+common_stubs! { 98,
+fn g2_compressed_flags() {
+    let b0: u8 = kani::any();
+    let bl: u8 = kani::any();
+    let mut bytes = [0u8; 96];
+    bytes[0] = b0;
+    bytes[95] = bl;
+    unsafe {
+        SQRT_SOME = kani::any();
+        SQRT_Y2 = [[0u64; 6]; 2];
+        SQRT_Y2[0][0] = kani::any();
+        SQRT_Y2[1][0] = kani::any();
+        kani::assume(SQRT_Y2[0][0] != 0 || SQRT_Y2[1][0] != 0);
+    }
+    let mut enc = G2Compressed::empty();
+    let mut i = 0;
+    while i < 96 {
+        enc.as_mut()[i] = bytes[i];
+        i += 1;
+    }
+    let greatest = b0 & 0x20 != 0;
+    let y = unsafe { SQRT_Y2 };
+    let ny = [neg(&y[0]), neg(&y[1])];
+    let ysel = if lt2(&y, &ny) ^ greatest { y } else { ny };
+    let sc = if b0 & 0x80 == 0 {
+        Cat::Compression
+    } else if b0 & 0x40 != 0 {
+        if b0 & 0x3f == 0 && bl == 0 { Cat::OkInf } else { Cat::Information }
+    } else if b0 & 0x1f > 0x1a {
+        Cat::Coordinate
+    } else if unsafe { !SQRT_SOME } {
+        Cat::NotOnCurve
+    } else {
+        Cat::OkPoint
+    };
+    let got = enc.into_affine_unchecked();
+    let inf = match &got { Ok(p) => p.is_zero(), _ => false };
+    assert!(cat(&got, inf) == sc);
+    if let Ok(p) = &got {
+        if !inf {
+            let (_, py, _) = p.verif_raw();
+            assert!(raw2(&py) == ysel);
+        }
+    }
+    kani::cover!(sc == Cat::OkPoint && greatest, "sort flag honoured");
+    std::mem::forget(got);
+}
+}
+
+common_stubs! { 98,
+fn g2_sort_flag_rule() {
+    // encoder side of the sort flag for G2: flag set iff y > -y in the lexicographic order (c1 most significant, tie-break on c0)
+    let mut y = [[0u64; 6]; 2];
+    y[0] = kani::any();
+    y[1][0] = kani::any();
+    let c1_zero: bool = kani::any();
+    if c1_zero {
+        y[1][0] = 0;
+    }
+    kani::assume(lt(&y[0], &Q) && !(is0(&y[0]) && is0(&y[1])));
+    let p = G2Affine::verif_from_raw(mkfq2([[0u64; 6]; 2]), mkfq2(y), false);
+    let c = G2Compressed::from_affine(p);
+    let ny = [neg(&y[0]), neg(&y[1])];
+    let want_flag = lt2(&ny, &y);
+    assert!((c.as_ref()[0] & 0x20 != 0) == want_flag);
+    assert!(c.as_ref()[0] & 0xc0 == 0x80);
+    let u = G2Uncompressed::from_affine(p);
+    assert!(u.as_ref()[0] & 0xe0 == 0);
+    kani::cover!(c1_zero && want_flag, "tie-break on c0 decides and the flag is set");
+}
+}
